@@ -356,7 +356,10 @@ def generate(ctx):
     n_pos_run = ctx.stats.get('kind_pos', 0)
     skipped = ctx.stats.get('pos_unparsed', 0) + ctx.stats.get('pos_shape_differs', 0)
     if n_pos_run and skipped > max(3, SKIP_LIMIT * n_pos_run):
-        raise common.HarnessError('%d of %d position cases could not be checked (%d rejected by the parser, %d with a '
+        # more texts than allowed that the parser rejects / groups differently: the usual cause is a change of the
+        # implementation (grammar, lexer flags ...), so this is a BROKEN TIE (the runner searches for a failing input
+        # and reports `no-failing-input-found` otherwise), not a defect of the harness
+        raise getattr(common, 'BrokenTie', common.HarnessError)('%d of %d position cases could not be checked (%d rejected by the parser, %d with a '
                                   'tree shape other than written): the position predicate D was vacuous on more than '
                                   '%.0f %% of them' % (skipped, n_pos_run, ctx.stats.get('pos_unparsed', 0),
                                                       ctx.stats.get('pos_shape_differs', 0), 100 * SKIP_LIMIT))
